@@ -48,6 +48,10 @@ structure BoundSite where
   lo : BTerm
   hi : BTerm
   guards : List BGuard
+  /-- the variables of the bounds / the operand that an ENCLOSING LOOP assigns (loop-carried), with the direction they
+      move in: `inc` | `dec` | `other`.  What was known before the loop about such a variable is recorded in `guards`
+      only as far as the loop cannot invalidate it (the upper bound of a variable that only moves down, …) -/
+  carried : List (String × String) := []
   deriving Repr, Inhabited
 
 abbrev BEnv := BAtom → Int
@@ -97,7 +101,7 @@ def lowerOf (gs : List BGuard) (a : BAtom) : List Int :=
 /-- `t1 ≤ t2` follows from the facts `gs` (sound, far from complete; the five shapes that occur):
     R1 the same non-opaque atom on both sides; R2 a constant against an atom with a constant lower bound;
     R3 `i + o1 ≤ a + o2` from `i < a + k`; R4 `b + o1 ≤ a + o2` from `a ≥ b + k`;
-    R5 `i + o1 ≤ a + o2` from `i < b + k` and `a ≥ b + k'` -/
+    R5 `i + o1 ≤ a + o2` from `i < b + k` and `a ≥ b + k'`; R6 the same with constants: `i < k` and `a ≥ c` -/
 def entailsLe (gs : List BGuard) (t1 t2 : BTerm) : Bool :=
   match t1.atom, t2.atom with
   | none, none => decide (t1.off ≤ t2.off)
@@ -111,7 +115,10 @@ def entailsLe (gs : List BGuard) (t1 t2 : BTerm) : Bool :=
       match g1.rhs.atom with
       | some b => !b.isOpaque && gs.any fun g2 => (g2.op == .ge || g2.op == .eq) && g2.lhs == a && g2.rhs.atom == some b &&
           decide (t1.off + g1.rhs.off - 1 ≤ g2.rhs.off + t2.off)
-      | none => false)
+      | none => false) ||
+    -- R6 `i + o1 ≤ a + o2` from `i < k` and a constant lower bound `c ≤ a`
+    (gs.any fun g1 => g1.op == .lt && g1.lhs == i && !i.isOpaque && g1.rhs.atom.isNone &&
+      (lowerOf gs a).any fun c => decide (t1.off + g1.rhs.off - 1 ≤ c + t2.off))
 
 /-- `0 ≤ t` follows from the facts -/
 def entailsNonneg (gs : List BGuard) (t : BTerm) : Bool :=
@@ -122,6 +129,35 @@ def entailsNonneg (gs : List BGuard) (t : BTerm) : Bool :=
 /-- the syntactic check that is `decide`d on every regenerated site -/
 def BoundSite.safe (s : BoundSite) : Bool :=
   entailsNonneg s.guards s.lo && entailsLe s.guards s.lo s.hi && entailsLe s.guards s.hi ⟨some (.len s.base), 0⟩
+
+/-! ### loop-carried index variables -/
+
+/-- a recorded fact that bounds variable `v` from below (`v ≥ t`, `v = t`, `x < v + k`, `x = v + k`) -/
+def lowerFact (v : String) (g : BGuard) : Bool :=
+  (g.lhs == .var v && (g.op == .ge || g.op == .eq)) || (g.rhs.atom == some (.var v) && (g.op == .lt || g.op == .eq))
+
+/-- a recorded fact that bounds variable `v` from above (`v < t`, `v = t`, `x ≥ v + k`, `x = v + k`) -/
+def upperFact (v : String) (g : BGuard) : Bool :=
+  (g.lhs == .var v && (g.op == .lt || g.op == .eq)) || (g.rhs.atom == some (.var v) && (g.op == .ge || g.op == .eq))
+
+/-- the variables the bounds of the access are terms over -/
+def BoundSite.indexVars (s : BoundSite) : List String :=
+  [s.lo.atom, s.hi.atom].filterMap fun a => match a with | some (.var v) => some v | _ => none
+
+/-- every LOOP-CARRIED index variable of the access is bounded from below AND from above by a fact that dominates the
+    access (a guard inside the loop, the loop condition, or - for the side a monotone variable cannot leave - what
+    was known before the loop) -/
+def BoundSite.loopGuarded (s : BoundSite) : Bool :=
+  s.carried.all fun c => !(s.indexVars.contains c.1) || (s.guards.any (lowerFact c.1) && s.guards.any (upperFact c.1))
+
+/-- the sites the check cannot discharge, audited by hand (each function is pinned to its audited text in
+    Proofs/C09Bounds.lean):
+    * `op.NewUserCode`: `charSet[int(bi.Int64())]` with `bi, err := rand.Int(rand.Reader, max)`, `max = len(charSet)`:
+      `crypto/rand.Int` returns a value in `[0, max)`; the character set is configuration, not input;
+    * `crypto.HashString`: `hash.Sum(nil)[:size]` with `size = hash.Size()` or half of it: the contract of `hash.Hash`
+      (`Sum(nil)` is `Size()` bytes long); the hash comes from `crypto.GetHashAlgorithm` (SHA-2 family) -/
+def auditedBoundSites : List (String × String) :=
+  [("op.NewUserCode", "charSet[int(bi.Int64())]"), ("crypto.HashString", "hash.Sum(nil)[:size]")]
 
 /-- the sites of function `fn` whose operand is `base` (a parameter): does one of them panic when the parameter has
     length `n`?  (what the driver predicts for the length-boundary cases of the stream) -/
